@@ -690,7 +690,7 @@ func specC11() *propertySpec {
 			{"C11-R1", "fresh-or-reset: each bracket call site gets a fresh T, or every per-case field (computed from the stores to T fields) is reset before the call", ruleC11R1},
 			{"C11-R2", "attributed-to-own-case: the flag is consulted after cleanup and on the skip path of the same bracket invocation (shared with C02-R2)", ruleC02R2},
 			{"C11-R4", "cleanups-and-context-end-with-their-case: the context is cancelled and every registered cleanup has run when the bracket returns, even if a cleanup panics (shared with C10-R2/R3/R4)", func(r *Run) { ruleC10R2(r); ruleC10R3(r); ruleC10R4(r) }},
-			{"C11-R3", "no-shared-stream-state: a stream shared between test cases is re-seeded per case and does not record; every other T gets its own stream", ruleC11R3},
+			{"C11-R3", "no-shared-stream-state: a stream shared between test cases is re-seeded per case and does not record; its position counter, which is not reset, is only compared with other positions of the same stream; every other T gets its own stream", ruleC11R3},
 		},
 	}
 }
@@ -929,6 +929,7 @@ func innermostLoop(in ssa.Instruction) *loopInfo {
 
 func ruleC11R3(r *Run) {
 	p := r.P
+	ruleStreamPositionRelative(r)
 	n := 0
 	for _, fn := range p.FuncList {
 		name := p.fnName(fn)
@@ -1043,4 +1044,261 @@ func cancelStoredOnPath(p *Program, cp *cfgPath, st *ssa.Store) bool {
 		}
 	}
 	return false
+}
+
+// ruleStreamPositionRelative: the position counter of a non-recording stream (recordedBits.dataLen, returned by drawn()
+// and, for non-recording streams, by beginGroup()) is NOT reset by (*randomBitStream).init: on the search stream that
+// findBug shares between test cases it counts the draws of all earlier test cases. It is harmless exactly as long as
+// positions are only compared with other positions of the same stream (or handed back to endGroup). Any other use —
+// a comparison with a constant, arithmetic flowing into a draw — makes a test case depend on its predecessors (C11),
+// so that neither the printed seed (C07) nor the recorded bits (C04) reproduce it.
+func ruleStreamPositionRelative(r *Run) {
+	p := r.P
+	isPosCall := func(v ssa.Value) bool {
+		c, ok := v.(*ssa.Call)
+		if !ok {
+			return false
+		}
+		switch p.calleeKey(c.Common()) {
+		case "invoke:bitStream.drawn", "(*recordedBits).drawn", "invoke:bitStream.beginGroup", "(*recordedBits).beginGroup":
+			return true
+		}
+		return false
+	}
+	isDataLenLoad := func(v ssa.Value) bool {
+		u, ok := v.(*ssa.UnOp)
+		if !ok || u.Op != token.MUL {
+			return false
+		}
+		fa, ok := u.X.(*ssa.FieldAddr)
+		return ok && p.fieldAddrOwner(fa) == "recordedBits" && fieldAddrName(fa) == "dataLen"
+	}
+	posFields := map[string]bool{}
+	// pre-pass: fields a position is stored into
+	for _, fn := range p.FuncList {
+		for _, b := range p.body(fn) {
+			for _, in := range b.Instrs {
+				if st, ok := in.(*ssa.Store); ok {
+					if fa, ok := st.Addr.(*ssa.FieldAddr); ok && p.fieldAddrOwner(fa) != "recordedBits" && isPosCall(p.resolve(st.Val)) {
+						posFields[p.fieldAddrOwner(fa)+"."+fieldAddrName(fa)] = true
+					}
+				}
+			}
+		}
+	}
+	// argument bound to a parameter of a function literal that is called or deferred where it is created
+	var derives func(v ssa.Value, d int) bool
+	derives = func(v ssa.Value, d int) bool {
+		if v == nil || d > 6 {
+			return false
+		}
+		if isPosCall(v) || isDataLenLoad(v) {
+			return true
+		}
+		rv := p.resolve(v)
+		if rv != v && (isPosCall(rv) || isDataLenLoad(rv)) {
+			return true
+		}
+		switch x := rv.(type) {
+		case *ssa.UnOp:
+			// a field that holds a position (repeat.group = beginGroup(…))
+			if fa, ok := x.X.(*ssa.FieldAddr); ok && x.Op == token.MUL && posFields[p.fieldAddrOwner(fa)+"."+fieldAddrName(fa)] {
+				return true
+			}
+		case *ssa.Parameter:
+			fn := x.Parent()
+			if strings.HasSuffix(p.fnName(fn), ").endGroup") && x.Name() == "i" {
+				return true // the position handed back by the caller
+			}
+			if fn.Parent() == nil {
+				return false
+			}
+			idx := -1
+			for k, q := range fn.Params {
+				if q == x {
+					idx = k
+				}
+			}
+			for _, b := range fn.Parent().Blocks {
+				for _, in := range b.Instrs {
+					c, ok := in.(ssa.CallInstruction)
+					if !ok {
+						continue
+					}
+					if mc, ok := c.Common().Value.(*ssa.MakeClosure); ok && mc.Fn == ssa.Value(fn) && idx < len(c.Common().Args) {
+						return derives(c.Common().Args[idx], d+1)
+					}
+				}
+			}
+		case *ssa.Phi:
+			for _, e := range x.Edges {
+				if e != ssa.Value(x) && derives(e, d+1) {
+					return true
+				}
+			}
+		case *ssa.BinOp:
+			if x.Op == token.ADD || x.Op == token.SUB {
+				return derives(x.X, d+1) || derives(x.Y, d+1)
+			}
+		case *ssa.Convert:
+			return derives(x.X, d+1)
+		case *ssa.ChangeType:
+			return derives(x.X, d+1)
+		}
+		return false
+	}
+	nSrc, nUse := 0, 0
+	var visit func(src ssa.Value, v ssa.Value, fn *ssa.Function, d int, seen map[ssa.Value]bool)
+	visit = func(src, v ssa.Value, fn *ssa.Function, d int, seen map[ssa.Value]bool) {
+		if v.Referrers() == nil || d > 6 || seen[v] {
+			return
+		}
+		seen[v] = true
+		host := p.hostName(fn)
+		for _, ref := range *v.Referrers() {
+			nUse++
+			bad := ""
+			switch x := ref.(type) {
+			case *ssa.DebugRef:
+				nUse--
+			case *ssa.BinOp:
+				other := x.X
+				if other == v {
+					other = x.Y
+				}
+				switch x.Op {
+				case token.EQL, token.NEQ, token.LSS, token.LEQ, token.GTR, token.GEQ:
+					if c, isC := constInt(p.resolve(other)); isC {
+						// sentinel tests ("no open group": -1) hold or fail for every real position alike
+						left := x.X == v
+						sign := c == 0 && ((left && (x.Op == token.GEQ || x.Op == token.LSS)) || (!left && (x.Op == token.LEQ || x.Op == token.GTR)))
+						sentinel := c < 0 && (x.Op == token.EQL || x.Op == token.NEQ)
+						if sign || sentinel {
+							continue
+						}
+					}
+					if !derives(other, 0) {
+						bad = "is compared with " + p.expr(other) + ", which is not a position of the same stream"
+					}
+				case token.SUB:
+					if derives(other, 0) {
+						continue // a distance: history-independent
+					}
+					visit(src, x, fn, d+1, seen)
+				case token.ADD:
+					visit(src, x, fn, d+1, seen)
+				default:
+					bad = "is used in arithmetic " + p.expr(x)
+				}
+			case *ssa.Store:
+				if fa, ok := x.Addr.(*ssa.FieldAddr); ok && p.fieldAddrOwner(fa) == "recordedBits" && fieldAddrName(fa) == "dataLen" {
+					continue // the counter itself
+				}
+				if al, ok := x.Addr.(*ssa.Alloc); ok {
+					// local cell (e.g. a result cell of a function with defers): follow its loads
+					if al.Referrers() != nil {
+						for _, r2 := range *al.Referrers() {
+							if u, ok := r2.(*ssa.UnOp); ok {
+								visit(src, u, fn, d+1, seen)
+							}
+						}
+					}
+					continue
+				}
+				if fa, ok := x.Addr.(*ssa.FieldAddr); ok {
+					// a field holding the position: every read of that field is a further use
+					owner, name := p.fieldAddrOwner(fa), fieldAddrName(fa)
+					posFields[owner+"."+name] = true
+					for _, acc := range p.fieldAccesses(owner) {
+						if acc.Field == name && acc.Kind == "read" {
+							if val, ok := acc.Instr.(ssa.Value); ok {
+								visit(src, val, acc.Fn, d+1, seen)
+							}
+						}
+					}
+					continue
+				}
+				bad = "is stored to " + p.expr(x.Addr)
+			case *ssa.Return:
+				if strings.HasSuffix(host, ").drawn") || strings.HasSuffix(host, ").beginGroup") {
+					continue
+				}
+				bad = "is returned by " + host
+			case *ssa.Phi:
+				visit(src, x, fn, d+1, seen)
+			case *ssa.Convert:
+				visit(src, x, fn, d+1, seen)
+			case *ssa.ChangeType:
+				visit(src, x, fn, d+1, seen)
+			case *ssa.MakeInterface:
+				// only as an argument of an assertion/panic message
+				visit(src, x, fn, d+1, seen)
+			case *ssa.IndexAddr:
+				if x.Index == v {
+					// groups[i] in the recording branch of endGroup: i is a group index there
+					if strings.HasSuffix(host, ").endGroup") {
+						continue
+					}
+					bad = "indexes " + p.expr(x.X)
+				} else {
+					// element of a variadic argument slice
+					visit(src, x, fn, d+1, seen)
+				}
+			case ssa.CallInstruction:
+				key := p.calleeKey(x.Common())
+				switch {
+				case key == "invoke:bitStream.endGroup" || key == "(*recordedBits).endGroup":
+					continue
+				case key == "assertf" || key == "assert" || strings.HasPrefix(key, "fmt."):
+					continue
+				}
+				if mc, ok := x.Common().Value.(*ssa.MakeClosure); ok {
+					// argument of a function literal called/deferred in place: follow the parameter
+					lit := mc.Fn.(*ssa.Function)
+					for k, a := range x.Common().Args {
+						if a == v && k < len(lit.Params) {
+							visit(src, lit.Params[k], lit, d+1, seen)
+						}
+					}
+					continue
+				}
+				if sc := x.Common().StaticCallee(); sc != nil && p.transparent(sc) {
+					if o := sc.Origin(); o != nil {
+						sc = o
+					}
+					for k, a := range x.Common().Args {
+						if a == v && k < len(sc.Params) {
+							visit(src, sc.Params[k], sc, d+1, seen)
+						}
+					}
+					continue
+				}
+				bad = "is passed to " + key
+			case *ssa.If:
+			default:
+				if val, ok := ref.(ssa.Value); ok {
+					visit(src, val, fn, d+1, seen)
+				}
+			}
+			if bad != "" {
+				r.Fail(host+"#stream-position:"+p.expr(src), ref.Pos(), "the stream position "+p.expr(src)+" "+bad+": on the stream findBug shares between test cases the position counts the draws of all earlier test cases (init does not reset it), so the test case would depend on its predecessors and be reproduced neither by its seed nor by its recording")
+			}
+		}
+	}
+	for _, fn := range p.FuncList {
+		for _, b := range p.body(fn) {
+			for _, in := range b.Instrs {
+				v, ok := in.(ssa.Value)
+				if !ok || !(isPosCall(v) || isDataLenLoad(v)) {
+					continue
+				}
+				nSrc++
+				visit(v, v, in.Parent(), 0, map[ssa.Value]bool{})
+			}
+		}
+	}
+	r.Floor("reads of the stream position (drawn / beginGroup / dataLen)", nSrc, 10)
+	if nUse > 0 {
+		r.OK("stream-position-census", token.NoPos, fmt.Sprintf("%d reads of the stream position, %d uses: all are comparisons between positions of one stream, endGroup arguments or assertion messages", nSrc, nUse))
+	}
 }
